@@ -86,9 +86,9 @@ type LockUnit struct {
 	Name   string
 	G      *cfg.CFG
 	In     map[*cfg.Block]*lockState
-	Sites  map[token.Pos]string           // Lock call sites -> name
-	Leaks  map[token.Pos][]token.Pos      // lock site -> exits reached with it held
-	MustAt map[ast.Node]map[string]bool   // must-held set in front of each CFG node
+	Sites  map[token.Pos]string         // Lock call sites -> name
+	Leaks  map[token.Pos][]token.Pos    // lock site -> exits reached with it held
+	MustAt map[ast.Node]map[string]bool // must-held set in front of each CFG node
 }
 
 // walkCalls visits call expressions of a CFG node in source order without
